@@ -379,6 +379,77 @@ def shift_width(facts, res, R="C15.4.shift-width", roots_only=False):
     return n_seen, n_wide, hits
 
 
+# --------------------------------------------------------------------------- C15.5 pointer members into owned containers
+RESETTERS = {"assign", "clear", "fill", "resize"}
+
+
+def member_pointers_into_containers(facts, res, R="C15.5.member-pointer-lifetime"):
+    """A data member that stores the ADDRESS of an element of a container member of the same object (a `last hit` cache, a
+    back pointer) dangles as soon as that container is cleared, refilled or reallocated.  For every such (pointer member P,
+    container member G) pair: every member function that structurally modifies G must also reset P.  Decided per class from
+    the assignments `P = &element-of-G` / `P[i] = &element-of-G` found in its methods."""
+    import c16
+    n = 0
+    seen_classes = 0
+    for cls in sorted(set(c["name"] for c in facts.classes)):
+        crecs = [c for c in facts.classes if c["name"] == cls]
+        path = tbf.rel(facts.path_of(crecs[0])) if crecs[0].get("l") else ""
+        if not path.startswith("src/core/") and not path.startswith("src/algorithms/") and not path.startswith("verif:fixtures"):
+            continue
+        fields = {}
+        for c in crecs:
+            for fl in c.get("fields", []):
+                fields[fl["name"]] = fl
+        ptr_fields = {nm for nm, fl in fields.items() if re.search(r"\*\s*(const)?\s*>*$", fl.get("t", "").strip()) or re.search(r"\*\s*>", fl.get("t", ""))}
+        if not ptr_fields:
+            continue
+        seen_classes += 1
+        pairs = {}     # (P, G) -> assignment node
+        methods = [m for m in facts.methods_of(cls) if tbf.body(m) is not None]
+        for m in methods:
+            lk = c16._Look(facts, m)
+            for x in walk(lk.fm.body):
+                if x.get("k") == "BinaryOperator" and x.get("op") == "=":
+                    l = strip(kids(x)[0])
+                    base = l
+                    while base.get("k") in ("ArraySubscriptExpr", "CXXOperatorCallExpr") and len(kids(base)) >= 2:
+                        base = strip(kids(base)[-2])
+                    if base.get("k") in ("MemberExpr", "CXXDependentScopeMemberExpr") and base.get("name") in ptr_fields and (not kids(base) or strip(kids(base)[0]).get("k") == "CXXThisExpr"):
+                        r = strip(kids(x)[1])
+                        if r.get("k") == "UnaryOperator" and r.get("op") == "&":
+                            d = lk.desc(kids(r)[0])
+                            g = re.search(r"C:(\w+)", d)
+                            if g and g.group(1) in fields and g.group(1) != base["name"]:
+                                pairs.setdefault((base["name"], g.group(1)), (m, x))
+        for (P, G), (m0, x0) in sorted(pairs.items()):
+            n += 1
+            res.instance(R, "%s::%s -> element of %s" % (cls, P, G), facts.loc(x0), "set in %s" % m0["name"])
+            for m in methods:
+                if m.get("kind") in ("CXXConstructor", "CXXDestructor"):
+                    continue
+                lk = c16._Look(facts, m)
+                muts = [c for c in walk(lk.fm.body) if c.get("k") in ("CallExpr", "CXXMemberCallExpr") and tbf.callee_name(c) in c16.MUTATORS | {"reserve", "shrink_to_fit"} and tbf.call_base(c) is not None
+                        and (lk.container(tbf.call_base(c)) or "").split("[")[0] == G]
+                if not muts:
+                    continue
+                resets = []
+                for c in walk(lk.fm.body):
+                    if c.get("k") in ("CallExpr", "CXXMemberCallExpr") and tbf.callee_name(c) in RESETTERS and tbf.call_base(c) is not None and (lk.container(tbf.call_base(c)) or "").split("[")[0] == P:
+                        resets.append(c)
+                    if c.get("k") in ("CallExpr",) and tbf.callee_name(c) in ("fill", "fill_n") and any((lk.container(a) or lk.desc(a)).find(P) >= 0 for a in tbf.call_args(c)):
+                        resets.append(c)
+                    if c.get("k") == "BinaryOperator" and c.get("op") == "=":
+                        l = strip(kids(c)[0])
+                        if l.get("k") in ("MemberExpr", "CXXDependentScopeMemberExpr") and l.get("name") == P and strip(kids(c)[1]).get("k") in ("CXXNullPtrLiteralExpr", "GNUNullExpr", "IntegerLiteral", "ImplicitValueInitExpr"):
+                            resets.append(c)
+                res.instance(R, "%s::%s modifies %s" % (cls, m["name"], G), facts.loc(muts[0]), "%d modification(s) of %s, %d reset(s) of %s" % (len(muts), G, len(resets), P))
+                if not resets:
+                    res.violation(R, tbf.rel(facts.path_of(m)), m["qname"], "dangling:%s:%s" % (P, m["name"]), muts[0]["l"][1],
+                                  "%s() clears / refills / reallocates '%s' but never resets the member '%s', which holds the address of one of its elements (set at %s): "
+                                  "the next use of '%s' reads freed or destroyed memory" % (m["name"], G, P, facts.loc(x0), P))
+    return n, seen_classes
+
+
 def run(res, tier):
     facts = tbf.scan("core")
     res.units.append("umbrella TU 'core': OpenMP executors (CreateNew), rotation/uniform kernels + TbfPeriodicShifter, TbfMemoryBlock, wrapper/top-tree fill idioms")
@@ -418,6 +489,16 @@ def run(res, tier):
     if h != 2 or _s != 5:
         raise AnalysisBroken("positive control fixtures/c15_int_shift.cpp: %d of 2 narrow run-time shifts reported (%d of 5 shifts seen)" % (h, _s))
     res.instance("C15.4.shift-width", "positive control", "verif:fixtures/c15_int_shift.cpp", "2 of 2 seeded constructs reported, 3 of 3 harmless ones silent")
+    res.rule("C15.5 a member that stores the address of an element of a container member is reset by every member function that clears / refills / reallocates that container")
+    np_, nc_ = member_pointers_into_containers(facts, res)
+    res.instance("C15.5.member-pointer-lifetime", "classes of src/core and src/algorithms", "umbrella 'core'", "%d classes with pointer-typed members examined, %d members hold addresses of container elements" % (nc_, np_))
+    fx5 = os.path.join(tbf.VERIF, "fixtures", "c15_member_pointer.cpp")
+    ff5 = tbf.scan_file(fx5, [], [os.path.join(tbf.VERIF, "fixtures") + os.sep])
+    ctl5 = tbf.Result("control")
+    member_pointers_into_containers(ff5, ctl5)
+    if len(ctl5.violations) != 1:
+        raise AnalysisBroken("positive control fixtures/c15_member_pointer.cpp: %d of 1 dangling member pointers reported" % len(ctl5.violations))
+    res.instance("C15.5.member-pointer-lifetime", "positive control", "verif:fixtures/c15_member_pointer.cpp", "1 of 1 seeded constructs reported, the reset one silent")
     cmap = effects.container_map(facts)
     for fn, sr, call, op, slots in coherence.wrapper_kernel_calls(facts, cmap):
         c02.fill_idiom(facts, fn, sr, call, op, slots, res, R="C15.3.array-fill")
